@@ -221,8 +221,8 @@ Print Assumptions C07_model_uses_thread_automaton.
    scheduler is given, it only takes steps of Group.gstep, so the state it reports is reachable and the threads it was not
    given never moved; and the boolean invariant it evaluates (Model/GroupR_inv.v: the decidable clauses of Inv1, Inv2, Inv3) is
    true on that state as long as fewer than 2^32 generations elapsed *)
-Theorem C07_replay_reach : forall chk period qs ord, qs_ok qs = true ->
-  let s' := fst (fst (fst (fst (fst (sched chk period (S (length ord)) (length ord) init_state qs ord 0 (-1) ([], [])))))) in
+Theorem C07_replay_reach : forall chk period strict qs ord, qs_ok qs = true ->
+  let s' := fst (fst (fst (fst (fst (sched chk period strict (S (length ord)) (length ord) init_state qs ord 0 (-1) ([], [])))))) in
   reach s' /\ others_idle (map fst qs) s'.
 Proof. exact replay_reach. Qed.
 Print Assumptions C07_replay_reach.
